@@ -56,8 +56,8 @@ CHECKS = {
  'C05': dict(
   technique='def-use / index-role analysis of the matrix construction, single-ordering-source and set-order-leak '
             'dataflow, builder relabel discipline and graph ownership (who-may-write), typestate for replaced '
-            'compartments over the whole package, serialisation key/index agreement',
-  text='O1-O7 decide, on the current source, the structural facts that make graph, matrix, amounts, names, inputs '
+            'compartments over the whole package, serialisation key/index agreement; stale-snapshot rule for named CompartmentalSystem copies of a builder (CFG reachability, mutator set derived from the builder class)',
+  text='O1-O8 decide, on the current source, the structural facts that make graph, matrix, amounts, names, inputs '
        'and equations describe one system in one order: every violation has a concrete system as witness '
        '(transposed matrix, dropped output term, insertion-order enumeration, lost relabel, duplicated stale node, '
        'filtered substitution, mis-indexed edges in to_dict).',
@@ -67,12 +67,11 @@ CHECKS = {
  'C10': dict(
   technique='class field models: coverage and accessor discipline of free_symbols/rhs_symbols/subs over every '
             'expression-valued field; scan-direction / index-range lint of the backward definition searches; '
-            'dependency-edge shape',
-  text='Narrow claim: D1-D3 are necessary for "reported dependencies always include every parameter the value can '
+            'dependency-edge shape; index-deletion / accumulator discipline, guarded traversal, closure of keep/remove sets (transitive API in single-pass growth), finite evaluation of the user-protection filter of remove_symbol_definitions',
+  text='D4-D7 decide index/accumulator discipline, guarded graph traversal, transitive closure of the protected set and that users on both sides of the edited statement protect a definition. D1-D3 are necessary for "reported dependencies always include every parameter the value can '
        'depend on" (a field that free_symbols ignores, or reports as an expression instead of symbols, hides a '
-       'dependency; a scan that skips index 0 or runs forwards mis-links definitions). The graph algorithms themselves '
-       '(dependencies, remove_symbol_definitions, full_expression, reassign) work on run-time statement lists and are '
-       'not decided by this family.',
+       'dependency; a scan that skips index 0 or runs forwards mis-links definitions). The results of the graph algorithms on run-time statement lists '
+       '(full_expression, reassign) are not decided by this family.',
   note='Expression-valued fields are recognised from constructor annotations (Expr, Dose); exemptions are listed with '
        'reasons in rules/C10.py.',
   ref='DESIGN.md §2 C10'),
@@ -80,13 +79,13 @@ CHECKS = {
   technique='grammar (lark rule/terminal tables) versus interpreter-class exhaustiveness, alphabet set agreement '
             'across grammar / constants / annotations / dispatch chains, equality-method shape and coverage, '
             'Wildcard typestate guard analysis on the CFG, interprocedural set-order leak dataflow in the search '
-            'algorithms',
-  text='G1-G8 quantify over every rule of the MFL grammar, every feature class and every method of the algebra, '
+            'algorithms; depth-typed abstract evaluation of the partitions() pipeline (no re-ordering inside a part while the consumer compares tuples); def-use dependence of the stepwise peripheral decision on the steps already taken',
+  text='G9-G12 decide the range abbreviation of the printer, Option construction, order preservation inside partition parts and that the stepwise peripheral rule looks at the previous steps. G1-G8 quantify over every rule of the MFL grammar, every feature class and every method of the algebra, '
        'where a test only samples a few strings: they decide that no statement kind or mode silently falls to the '
        'default lark handler, that the four spellings of each mode alphabet are the same set, that equality is a '
        'boolean symmetric relation over all attributes, that +,- and printing keep every attribute, that `*` is '
        'never iterated unguarded, and that no candidate list is paired positionally with a set.',
-  note='Not decided: counts of enumerated candidates (Bell numbers, power sets), stepwise path rules, algebraic laws '
+  note='Not decided: counts of enumerated candidates (Bell numbers, power sets), the complete set of stepwise paths, algebraic laws '
        'against expanded sets. Category table (terminal, class, field, wildcard constant) is an explicit slot table '
        'in rules/C18.py.',
   ref='DESIGN.md §2 C18'),
@@ -136,8 +135,8 @@ CHECKS = {
   technique='table extraction from the reader (if/elif chains, returned tuples, unpacking order, add_flow calls) with '
             'algebraic normalisation (sympy on the extracted constant expressions) against an independent PREDPP '
             'reference table; branch-internal index consistency; grammar-rule / interpreter-handler / NM-TRAN token '
-            'table agreement; precedence and associativity derived from the LALR grammar',
-  text='A1-A4 compare whole tables: all (ADVAN, TRANS) cells, all expression rules and tokens, all precedence levels. '
+            'table agreement; precedence and associativity derived from the LALR grammar; stale-snapshot reachability on the CFG of the $DES recovery; unit typestate (SD / variance) of the $OMEGA block matrix with CFG ordering; def-use/control dependence of the block-IF fall-through decision',
+  text='A6-A8 decide three path/dependence clauses of the $DES, $OMEGA and block-IF readers (9.1 of DESIGN.md). A1-A4 compare whole tables: all (ADVAN, TRANS) cells, all expression rules and tokens, all precedence levels. '
        'A swapped micro-constant, a wrong compartment number, a mis-mapped intrinsic or a changed associativity is '
        'found for every cell, not only those a test model happens to use. Numeric equality of eval(read(C)) with '
        'NM-TRAN for arbitrary programs, $DES recovery and OMEGA scale arithmetic are not decided.',
@@ -148,8 +147,8 @@ CHECKS = {
   technique='sibling-table agreement: writer PK ratios and renaming dictionaries extracted from update.py (finite '
             'evaluation of the if-chains over all (from ADVAN, ADVAN, TRANS) triples) versus the reader tables of C01 '
             '(edge unification with sympy); printer -> grammar -> interpreter composition on the operator alphabet; '
-            'n-ary / parenthesisation shape of the printer; numbering-source lint',
-  text='B1-B4 decide that reader, writer and renamer use one PREDPP table, that the printer is a right inverse of the '
+            'n-ary / parenthesisation shape of the printer; numbering-source lint; must-pass-through (CFG + callee summaries) of the state refresh on every branch of the ODE update; finite evaluation of the statement-group diff filters; sequential-substitution lint',
+  text='B5-B7 decide that every branch of the ODE update renumbers Sn/A(n) and stores the compartment map, that a changed statement group removes exactly the old and regenerates exactly the new statements, and that renumbering is simultaneous. B1-B4 decide that reader, writer and renamer use one PREDPP table, that the printer is a right inverse of the '
        'parser on all relational/logical operators and prints every operand, and that all numbering sites share one '
        'order. Semantic equality of generated code after arbitrary transformation sequences is not decided.',
   note='Trusted: specs/predpp.json; sympy class names of relational operators.',
@@ -158,11 +157,11 @@ CHECKS = {
   technique='sibling-method agreement inside the record classes (multiplicity handling of (value)xn in readers vs '
             'writers), idiom-shape check of FIX token synchronisation, node-versus-value comparison lint, and a '
             'lexer/parser table cross-check: token sentences enumerated from the LALR tables of the parameter-record '
-            'grammars, spelled with canonical lexemes, must be accepted by lark built from the same grammar',
+            'grammars, spelled with canonical lexemes, must be accepted by lark built from the same grammar; finite evaluation of the LCS backtracking comparison (longer subsequence followed, tie emits the insertion last) and of the branch/recursion consistency; template propagation of create_theta_record over the finite bound table',
   text='P1-P3 decide necessary conditions of "edits are written back exactly" for every layout with repeats and FIX '
        'flags (each violation has a concrete record as witness); A5 quantifies over every (lexer state, token, next '
        'token) context of the grammars (about 1400 witness sentences), i.e. over all documented layouts rather than '
-       'the literal records of the test files. Numeric scale conversions and the LCS edit script are not decided.',
+       'the literal records of the test files. P4-P6 decide the text form of new thetas for all bound combinations, FIX removal sites and the order contract of the LCS edit script that the record updaters consume positionally. Numeric scale conversions are not decided.',
   note='A5 runs lark (the grammar compiler) on sentences derived from its own tables; pharmpy is not executed. '
        'Trusted: lark scanner ordering as implemented in the installed version.',
   ref='DESIGN.md §2 C04, C01-A5'),
@@ -190,44 +189,56 @@ CHECKS = {
   note='Role literals are an explicit table (id: ID, L1).',
   ref='DESIGN.md §2 C14'),
  'C07': dict(
-  technique='field-coverage rule: the symbol-bearing fields of Model (read from Model.__init__) versus the fields that '
-            'each model-wide substitution function rewrites (AST def-use on the substitution dictionary)',
-  text='Narrow claim: F1 only decides that a model-wide renaming reaches every symbol-bearing field of the model (a '
-       'field that is skipped keeps the old symbol and the model no longer means the same). Preservation of the model '
-       'function by mu-referencing, make_declarative, cleanup, ODE solving, format conversion, and agreement of the '
-       'evaluators with finite differences are run-time symbolic/numeric questions and are not decided by this family.',
-  note='Two open findings (rename_symbols misses dependent_variables / observation_transformation).',
-  ref='DESIGN.md §2 C07'),
+  technique='field-coverage rules (symbol-bearing fields of Model versus the fields a model-wide substitution rewrites; '
+            'function-defining fields versus the fields a format converter carries over, including keyword '
+            'dictionaries built from a constant attribute tuple); search-direction and index-bound analysis of the '
+            'observation-expression extractor; discarded-result lint for the immutable API over the whole package',
+  text='Narrow claim: F1/F2 decide that renamings and format conversions reach every field that defines the model '
+       'function; F3 that the observation expression starts from the last assignment of the DV and substitutes only '
+       'earlier definitions; F4 that no result of subs/replace/reassign/update_source or of a model-returning modeling '
+       'function is dropped (1282 call sites). Preservation of the model function by mu-referencing, make_declarative, '
+       'cleanup, ODE solving, and agreement of the evaluators with finite differences are run-time symbolic/numeric '
+       'questions and are not decided by this family.',
+  note='Exception tables (DISCARD_OK) list two harmless dropped update_source() results with reasons; cli.py is '
+       'reported as advisory (outside the property).',
+  ref='DESIGN.md §2 C07, §9'),
  'C08': dict(
-  technique='alphabet/dispatch table agreement (MFL mode -> setter in the feature modules, mode -> detector in '
-            'get_model_features, export list of pharmpy.modeling) and exhaustive truth-table evaluation of the '
-            'elimination detector formulas over their shared atoms (atoms proven identical by AST comparison)',
-  text='Narrow claim: T1 decides that every absorption/elimination mode has a setter and a detector that name the same '
-       'feature; T2 decides that at most one elimination detector can be true for any model (pairwise disjoint formulas '
-       'over identical atoms); T3 lists setter-dispatch corners without branch (advisory). That a setter produces a '
-       'model its detector recognises, idempotence, reversibility and absence of internal errors depend on graph '
-       'rewrites of run-time compartmental systems and are not decided by this family.',
-  note='Absorption detectors inspect run-time dose objects; only their pairing (T1) is decided.',
-  ref='DESIGN.md §2 C08'),
+  technique='alphabet/dispatch table agreement (MFL mode -> setter, mode -> detector, export list); exhaustive '
+            'truth-table evaluation of the elimination detector formulas over atoms proven identical by AST comparison; '
+            'typestate of replaced compartments in all modeling functions (stale node -> silent no-op); search-loop '
+            'discipline on the CFG of the compartment finders; late-binding closure lint for the feature tables',
+  text='Narrow claim: T1 every absorption/elimination mode has a setter and a detector naming the same feature; T2 at '
+       'most one elimination detector is true for any model; T4 no setter result is lost through a stale compartment; '
+       'T5 the finders do not stop at a rejected candidate (detector independent of construction order); T6 every '
+       'entry of a feature table is bound to its own arguments. That a setter produces a model its detector recognises, '
+       'idempotence, reversibility and absence of internal errors depend on graph rewrites of run-time systems and are '
+       'not decided by this family.',
+  note='T3 (uncovered dispatch corner) is advisory: the corner needs fix_parameters, which is not a search-space step.',
+  ref='DESIGN.md §2 C08, §9'),
  'C09': dict(
   technique='docstring-formula versus template-expression comparison (formula parser for the ``.. math::`` blocks, AST '
             'to sympy conversion of the Expr/BooleanExpr constructor calls, algebraic normalisation) and substitution '
-            'cov = median for neutrality',
-  text='Narrow claim: X1 decides that the covariate effect templates are the documented functions and are neutral at '
-       'the reference value. Error models, IIV/IOV, eta transformations, allometry, mean transit/absorption time and '
-       'removal of extensions are assembled from run-time model statements and are not decided by this family.',
-  note='sympy is used as a normaliser of source-level expressions, not to execute pharmpy.',
-  ref='DESIGN.md §2 C09'),
+            'cov = median for neutrality; parameter-forwarding rule for the requested DV over resolved callees; '
+            'origin analysis (fresh / fixed / existing) of the symbols defined by inserted statements',
+  text='Narrow claim: X1 the covariate effect templates are the documented functions and neutral at the reference '
+       'value; X2 every error-model setter/detector asks its callees about the requested DV; X3 inserted guard '
+       'statements define fresh symbols. Which statistic the data pipeline computes for the reference (pandas '
+       'semantics), IIV/IOV, eta transformations, allometry, mean transit/absorption time and removal of extensions '
+       'are not decided by this family.',
+  note='sympy is used as a normaliser of source-level expressions, not to execute pharmpy. FIXED_OK lists the two '
+       'conventional fixed names (W, IPRED).',
+  ref='DESIGN.md §2 C09, §9'),
  'C11': dict(
-  technique='CFG dominance / reaching-definition rule on the covariance repair path (every returned matrix is dominated '
-            'by a successful PSD test of the same variable; overwrites guarded by object identity; repair only under a '
-            'failed validation) and predicate-agreement between validation and repair',
-  text='Narrow claim: V1 decides the clause "invalid values are replaced by something that passed the PSD test, valid '
-       'values are never altered" as a path property of nearest_positive_semidefinite, nearest_valid_parameters and '
-       'Model._canonicalize_parameter_estimates. Name/variance preservation under join/split/concatenate, block-diagonal '
-       'composition and inverse conversions are index bookkeeping on run-time matrices and are not decided.',
+  technique='CFG dominance / reaching-definition rule on the covariance repair path; must-pass-through of the '
+            'estimate canonicalisation in Model.create/replace; index-deletion order lint; accumulator-read lint '
+            '(conversion loops read their input, not the dictionary they write)',
+  text='Narrow claim: V1/V3 decide "invalid values are replaced by something that passed the PSD test, valid values '
+       'are never altered, and no model is constructed without the check"; V2 that index deletions in the block '
+       'bookkeeping run from the end; V4 that sd/corr conversion does not convert shared symbols twice. Variance '
+       'preservation under join/split, block-diagonal composition and inverse conversions are index arithmetic on '
+       'run-time matrices and are not decided.',
   note='Nearness (Frobenius) of the repaired matrix is numeric and not decided.',
-  ref='DESIGN.md §2 C11'),
+  ref='DESIGN.md §2 C11, §9'),
 }
 NA = {}
 
